@@ -205,7 +205,8 @@ pub fn c16(u: &mut Unstructured) -> Result<c16::Case> {
             _ => c16::Op::Clear,
         });
     }
-    Ok(c16::normalise(c16::Case { scale, delta, backlog, ops, weight_exp, value_exp }))
+    let tiny_weights = u.int_in_range(0u8..=15)? == 0;
+    Ok(c16::normalise(c16::Case { scale, delta, backlog, ops, weight_exp: if tiny_weights { 0 } else { weight_exp }, value_exp, tiny_weights }))
 }
 
 // ---------------------------------------------------------------- sketches (libFuzzer target `sketch_ops`)
